@@ -127,6 +127,7 @@ var c04Muts = []mutSpec{
 	{kind: "outer-ext-remnant", alerts: []int{alDecodeError, alIllegalParameter}},
 	{kind: "type-inner-no-tls13", alerts: []int{alIllegalParameter}},
 	{kind: "outer-ech-empty", alerts: []int{alDecodeError, alIllegalParameter}},
+	{kind: "ech-empty-enc", alerts: []int{alIllegalParameter, alDecodeError, alDecryptError}},
 	{kind: "inner-ech-empty", alerts: []int{alDecodeError, alIllegalParameter}},
 }
 
@@ -147,6 +148,27 @@ func addAlerts(dst []int, src []int) []int {
 
 func genC04(seed uint64, idx int) *Plan {
 	r := core.NewRand(seed, "plan")
+	if idx%10 == 9 {
+		// the same rules for the hello that follows a HelloRetryRequest: the
+		// call that meets it is Conn.Read
+		base := genScriptBase(r)
+		base.Chunks, base.ReadBuf, base.Trailer = nil, 0, nil
+		base.ExtraIn = max(base.ExtraIn, 2)
+		kind := []string{"hello2-outersni", "hello2-innertype", "hello2-noech", "hello2-id", "hello2-suite-pre", "hello2-enc", "hello2-fresh", "hello2-nover"}[r.IntN(8)]
+		h := &HistoryPlan{Base: *base, Concurrent: r.IntN(3) == 0}
+		if r.IntN(2) == 0 {
+			h.Steps = append(h.Steps, HStep{Side: "c", Kind: "ccs"})
+		}
+		h.Steps = append(h.Steps, HStep{Side: "b", Kind: "hrr", Join: r.IntN(2) == 0})
+		if r.IntN(2) == 0 {
+			h.Steps = append(h.Steps, HStep{Side: "b", Kind: "ccs"})
+		}
+		if r.IntN(2) == 0 {
+			h.Steps = append(h.Steps, HStep{Side: "c", Kind: "ccs"})
+		}
+		h.Steps = append(h.Steps, HStep{Side: "c", Kind: kind, A: r.IntN(1 << 20)})
+		return &Plan{Kind: "history", Seed: seed, History: h}
+	}
 	p := genScriptBase(r)
 	p.Expect = "abort"
 	p.ExtraIn = max(p.ExtraIn, 4)
@@ -172,6 +194,9 @@ func genC04(seed uint64, idx int) *Plan {
 		}
 		if ms.kind == "outer-ext-remnant" && hasMut(p.Mutations, "outer-no-tls13") != nil {
 			continue
+		}
+		if ms.kind == "ech-empty-enc" && len(p.Mutations) > 0 {
+			continue // on its own: the first hello names a held config but carries no encapsulated key
 		}
 		if ms.kind == "outer-ech-empty" && (hasMut(p.Mutations, "outer-ech-type") != nil || hasMut(p.Mutations, "ech-ext-lie") != nil) {
 			continue
